@@ -7,7 +7,6 @@ expected to violate Sound), and the same alias is replayed on the real code
 {255, 256} and must be unsatisfiable for every smaller N.
 """
 import gadgets
-import vlib
 
 
 def site_of(s, o):
@@ -15,14 +14,6 @@ def site_of(s, o):
 
 
 def run(tier):
-    ck_notes = []
-
-    def extra(ck, tier_):
-        res = gadgets.mc_family(ck, "decomposition_wide", tier_, expect_violation=True)
-        ck.notes.append("model exhibits the decomposition alias at N in {NB, NB+1} "
-                        "(GadgetSearch decomposition_wide violates Sound, as on the real code)")
-        return []
-
     return gadgets.standard("C11", tier, mc=["truncate", "decomposition"], weak=["weak_norange"],
                             scen=["truncate", "decomposition", "decomposition-alias", "truncate-alias"],
-                            site_of=site_of, extra_scen=extra, notes=ck_notes)
+                            site_of=site_of, mc_expect_violation=["decomposition_wide"])
